@@ -15,6 +15,9 @@ Judge(c) ==
     [] PROP = "C13" -> P_C13(c)
     [] PROP = "C15" -> P_C15(c)
     [] PROP = "C14" -> P_C14(c)
+    [] PROP = "C07" -> P_C07(c)
+    [] PROP = "C08" -> P_C08(c)
+    [] PROP = "C09" -> P_C09(c)
     [] OTHER -> FALSE
 Init == l = 0 /\ TLCSet(2, {})
 Step == l <= N /\ l' = l + 1
